@@ -69,29 +69,32 @@ theorem termStop_of_atTermEnd {rest : Str} (h : atTermEnd rest = true) : termSto
 theorem termStop_star (r : Str) : termStop ('*' :: r) = true := rfl
 theorem termStop_colon (r : Str) : termStop (':' :: r) = true := rfl
 
-/-- the single characters of `INVALID_TERM_STARTS` -/
+/-- the single characters of `INVALID_TERM_STARTS` that `lucene_escape` escapes -/
 def invalidChars : List Char :=
   ['"', '(', ')', '[', ']', '{', '}', '+', '-', '!', ':', '~', '^', '?', '*', '\\', '>', '=', '<']
 
-theorem invalid_iff (c : Char) : isInvalidStartChar c = true ↔ (isWs c = true ∨ c ∈ invalidChars) := by
+theorem invalid_iff (c : Char) :
+    isInvalidStartChar c = true ↔ (isWs c = true ∨ c = '　' ∨ c ∈ invalidChars) := by
   simp only [isInvalidStartChar, invalidChars, Bool.or_eq_true, beq_iff_eq, List.mem_cons, List.mem_nil_iff,
     or_false, or_assoc]
 
 theorem invalidChars_special : ∀ c ∈ invalidChars, isLuceneSpecial c = true := by decide
 
-/-- a character that is invalid at the start of a term is blank or one `lucene_escape` escapes -/
-theorem invalid_ws_or_special (c : Char) (h : isInvalidStartChar c = true) :
-    isWs c = true ∨ isLuceneSpecial c = true := by
-  rcases (invalid_iff c).1 h with h | h
-  · exact Or.inl h
+/-- a character that is invalid at the start of a term is blank (WHITESPACE or U+3000) or one
+    `lucene_escape` escapes -/
+theorem invalid_blank_or_special (c : Char) (h : isInvalidStartChar c = true) :
+    isBlank c = true ∨ isLuceneSpecial c = true := by
+  rcases (invalid_iff c).1 h with h | h | h
+  · exact Or.inl (by simp [isBlank, h])
+  · exact Or.inl (by subst h; rfl)
   · exact Or.inr (invalidChars_special c h)
 
-theorem not_invalid_of_plain (c : Char) (hw : isWs c = false) (hs : isLuceneSpecial c = false) :
+theorem not_invalid_of_plain (c : Char) (hw : isBlank c = false) (hs : isLuceneSpecial c = false) :
     isInvalidStartChar c = false := by
   cases h : isInvalidStartChar c with
   | false => rfl
   | true =>
-    cases invalid_ws_or_special c h with
+    cases invalid_blank_or_special c h with
     | inl h' => rw [hw] at h'; cases h'
     | inr h' => rw [hs] at h'; cases h'
 
@@ -143,15 +146,6 @@ theorem startsWith_escape : (p : List Char) → (s rest : Str) →
         Bool.and_eq_true, decide_eq_true_eq] at h ⊢
       exact ⟨h.1, startsWith_escape p s rest (fun d hd => hp d (by simp [hd])) hr h.2⟩
 
-theorem unicode3000_eq : unicode3000 = ['U', 'N', 'I', 'C', 'O', 'D', 'E', '3', '0', '0', '0'] := by decide
-
-theorem unicode3000_plain : ∀ c ∈ unicode3000, isInvalidStartChar c = false := by
-  rw [unicode3000_eq]; decide
-
-theorem hasU3000_cons (c : Char) (r : Str) :
-    hasU3000 (c :: r) = (startsWith unicode3000 (c :: r) || hasU3000 r) := by
-  rw [hasU3000]
-
 /-! ### runs of term characters -/
 
 theorem termChars_bs (c : Char) (r : Str) :
@@ -174,45 +168,36 @@ theorem termChars_stop (rest : Str) (h : termStop rest = true) : termChars rest 
     rw [termChars_cons c r h5]
     simp [invalidStart, h1, h2, h3, h4]
 
-theorem invalidStart_cons (c : Char) (r : Str) :
-    invalidStart (c :: r) = (isInvalidStartChar c || startsWith unicode3000 (c :: r)) := by
+theorem invalidStart_cons (c : Char) (r : Str) : invalidStart (c :: r) = isInvalidStartChar c := by
   rw [invalidStart]
 
 /-- a run of unescaped term characters is taken whole -/
-theorem termChars_raw : (r rest : Str) → r.all isMidChar = true → hasU3000 r = false →
+theorem termChars_raw : (r rest : Str) → r.all isMidChar = true →
     termStop rest = true → termChars (r ++ rest) = (r, rest)
-  | [], rest, _, _, hr => termChars_stop rest hr
-  | c :: r, rest, hm, hu, hr => by
+  | [], rest, _, hr => termChars_stop rest hr
+  | c :: r, rest, hm, hr => by
     simp only [List.all_cons, Bool.and_eq_true] at hm
-    rw [hasU3000_cons, Bool.or_eq_false_iff] at hu
     have hc : c ≠ '\\' := by
       intro e; subst e; exact absurd hm.1 (by decide)
-    have ih := termChars_raw r rest hm.2 hu.2 hr
+    have ih := termChars_raw r rest hm.2 hr
     rw [List.cons_append, termChars_cons c _ hc, ih]
     have hcond : (!invalidStart (c :: (r ++ rest)) || c == '-' || c == '+' || c == '=') = true := by
       have hm1 := hm.1
       simp only [isMidChar, Bool.or_eq_true, Bool.not_eq_true'] at hm1
       rcases hm1 with ((h | h) | h) | h
-      · have : startsWith unicode3000 (c :: (r ++ rest)) = false := by
-          cases hs : startsWith unicode3000 (c :: (r ++ rest)) with
-          | false => rfl
-          | true =>
-            have := startsWith_append unicode3000 (c :: r) rest unicode3000_plain hr (by simpa using hs)
-            rw [hu.1] at this; cases this
-        simp [invalidStart_cons, h, this]
+      · simp [invalidStart_cons, h]
       · simp [h]
       · simp [h]
       · simp [h]
     simp [hcond]
 
 /-- a run printed by `lucene_escape` is taken whole -/
-theorem termChars_esc : (v rest : Str) → hasWs v = false → hasU3000 v = false →
+theorem termChars_esc : (v rest : Str) → hasBlank v = false →
     termStop rest = true → termChars (luceneEscape v ++ rest) = (luceneEscape v, rest)
-  | [], rest, _, _, hr => by simpa [luceneEscape] using termChars_stop rest hr
-  | c :: v, rest, hw, hu, hr => by
-    simp only [hasWs, List.any_cons, Bool.or_eq_false_iff] at hw
-    rw [hasU3000_cons, Bool.or_eq_false_iff] at hu
-    have ih := termChars_esc v rest (by simpa [hasWs] using hw.2) hu.2 hr
+  | [], rest, _, hr => by simpa [luceneEscape] using termChars_stop rest hr
+  | c :: v, rest, hw, hr => by
+    simp only [hasBlank, List.any_cons, Bool.or_eq_false_iff] at hw
+    have ih := termChars_esc v rest (by simpa [hasBlank] using hw.2) hr
     by_cases hs : isLuceneSpecial c = true
     · simp only [luceneEscape, hs, if_true, List.cons_append]
       rw [termChars_bs, ih]
@@ -221,16 +206,7 @@ theorem termChars_esc : (v rest : Str) → hasWs v = false → hasU3000 v = fals
       have hinv := not_invalid_of_plain c hw.1 hs'
       simp only [luceneEscape, hs, Bool.false_eq_true, if_false, List.cons_append]
       rw [termChars_cons c _ hc, ih]
-      have : startsWith unicode3000 (c :: (luceneEscape v ++ rest)) = false := by
-        cases hsw : startsWith unicode3000 (c :: (luceneEscape v ++ rest)) with
-        | false => rfl
-        | true =>
-          have h' : startsWith unicode3000 (luceneEscape (c :: v) ++ rest) = true := by
-            simpa [luceneEscape, hs] using hsw
-          have := startsWith_escape unicode3000 (c :: v) rest unicode3000_plain hr h'
-          rw [hu.1] at this; cases this
-      simp [invalidStart_cons, hinv, this]
-
+      simp [invalidStart_cons, hinv]
 
 /-! ### keywords -/
 
@@ -279,36 +255,28 @@ theorem termStartChar_cons (c : Char) (r : Str) (h : c ≠ '\\') :
   simp [termStartChar, h]
 
 /-- text that is, as it stands, a run of term characters is scanned whole -/
-theorem termScan_raw (a rest : Str) (hne : a ≠ []) (hch : rawTermChars a = true) (hu : hasU3000 a = false)
+theorem termScan_raw (a rest : Str) (hne : a ≠ []) (hch : rawTermChars a = true)
     (hr : termStop rest = true) : termScan (a ++ rest) = some (a, rest) := by
   cases a with
   | nil => exact absurd rfl hne
   | cons c a =>
     simp only [rawTermChars, Bool.and_eq_true, Bool.not_eq_true'] at hch
     have hc : c ≠ '\\' := by intro e; subst e; exact absurd hch.1 (by decide)
-    rw [hasU3000_cons, Bool.or_eq_false_iff] at hu
-    have hsw : startsWith unicode3000 (c :: (a ++ rest)) = false := by
-      cases hs : startsWith unicode3000 (c :: (a ++ rest)) with
-      | false => rfl
-      | true =>
-        have := startsWith_append unicode3000 (c :: a) rest unicode3000_plain hr (by simpa using hs)
-        rw [hu.1] at this; cases this
     unfold termScan
-    rw [List.cons_append, termStartChar_cons c _ hc, invalidStart_cons, hch.1, hsw]
-    simp [termChars_raw a rest hch.2 hu.2 hr]
+    rw [List.cons_append, termStartChar_cons c _ hc, invalidStart_cons, hch.1]
+    simp [termChars_raw a rest hch.2 hr]
 
 /-- text printed by `lucene_escape` is scanned whole -/
 theorem termScan_esc (v rest : Str) (h : escTermOK v = true) (hr : termStop rest = true) :
     termScan (luceneEscape v ++ rest) = some (luceneEscape v, rest) := by
   simp only [escTermOK, Bool.and_eq_true, Bool.not_eq_true'] at h
-  obtain ⟨⟨hne, hw⟩, hu⟩ := h
+  obtain ⟨hne, hw⟩ := h
   cases v with
   | nil => simp at hne
   | cons c v =>
     have hw' := hw
-    simp only [hasWs, List.any_cons, Bool.or_eq_false_iff] at hw'
-    rw [hasU3000_cons, Bool.or_eq_false_iff] at hu
-    have htail := termChars_esc v rest (by simpa [hasWs] using hw'.2) hu.2 hr
+    simp only [hasBlank, List.any_cons, Bool.or_eq_false_iff] at hw'
+    have htail := termChars_esc v rest (by simpa [hasBlank] using hw'.2) hr
     unfold termScan
     by_cases hs : isLuceneSpecial c = true
     · simp only [luceneEscape, hs, if_true, List.cons_append]
@@ -317,16 +285,8 @@ theorem termScan_esc (v rest : Str) (h : escTermOK v = true) (hr : termStop rest
     · have hs' : isLuceneSpecial c = false := by simpa using hs
       have hc : c ≠ '\\' := by intro e; subst e; exact hs (by decide)
       have hinv := not_invalid_of_plain c hw'.1 hs'
-      have hsw : startsWith unicode3000 (c :: (luceneEscape v ++ rest)) = false := by
-        cases hsq : startsWith unicode3000 (c :: (luceneEscape v ++ rest)) with
-        | false => rfl
-        | true =>
-          have h' : startsWith unicode3000 (luceneEscape (c :: v) ++ rest) = true := by
-            simpa [luceneEscape, hs] using hsq
-          have := startsWith_escape unicode3000 (c :: v) rest unicode3000_plain hr h'
-          rw [hu.1] at this; cases this
       simp only [luceneEscape, hs, Bool.false_eq_true, if_false, List.cons_append]
-      rw [termStartChar_cons c _ hc, invalidStart_cons, hinv, hsw]
+      rw [termStartChar_cons c _ hc, invalidStart_cons, hinv]
       simp [htail]
 
 theorem noKeyword_raw (a rest : Str) (hne : a ≠ []) (hch : rawTermChars a = true) (hk : kwStart a = false)
@@ -354,10 +314,10 @@ theorem noKeyword_esc (v rest : Str) (hne : v ≠ []) (hk : kwStart v = false) (
 theorem term_raw (a rest : Str) (h : rawTermOK a = true) (hr : termStop rest = true) :
     term (a ++ rest) = some (a, rest) := by
   simp only [rawTermOK, Bool.and_eq_true, Bool.not_eq_true'] at h
-  obtain ⟨⟨⟨hne, hu⟩, hch⟩, hk⟩ := h
+  obtain ⟨⟨hne, hch⟩, hk⟩ := h
   have hne' : a ≠ [] := by intro e; subst e; simp at hne
   unfold term
-  rw [noKeyword_raw a rest hne' hch hk hr, termScan_raw a rest hne' hch hu hr]
+  rw [noKeyword_raw a rest hne' hch hk hr, termScan_raw a rest hne' hch hr]
   simp
 
 /-- text printed by `lucene_escape` is read as one `TERM` -/
